@@ -46,6 +46,7 @@ type Finding struct {
 	Params   map[string]string `json:"params"`
 	Path     int               `json:"path"`
 	Abstract bool              `json:"abstract,omitempty"` // found on a path that used an uninterpreted abstraction
+	Sched    bool              `json:"sched,omitempty"`    // found on a path with several goroutines (schedule-dependent)
 }
 
 type ReplayEntry struct {
@@ -702,6 +703,7 @@ func (m *Machine) reportWith(f *Finding, cond *Term) {
 	f.Harness = m.cfg.Harness
 	f.Params = m.cfg.Params
 	f.Abstract = m.pathAbstract
+	f.Sched = m.sched != nil
 	f.Path = m.pathNo
 	f.Tags = map[string]string{}
 	for k, v := range m.tags {
